@@ -1191,7 +1191,9 @@ thread_local! {
     static REAL_DIRS: std::cell::RefCell<Option<RealDirs>> = const { std::cell::RefCell::new(None) };
 }
 
-/// variant 0: directory pre-populated with foreign entries; variant 1: numbering gaps.
+/// variant 0: directory pre-populated with foreign entries; variant 1: numbering gaps;
+/// variant 2: after the seed, a symlink (to a file outside) is planted on the name of the NEXT WAL
+/// file the library will want to create.
 pub fn c17_leaf(env: &mut Env, leaf: &Leaf, variant: usize) {
     REAL_DIRS.with(|rd| {
         let mut rd = rd.borrow_mut();
@@ -1222,7 +1224,7 @@ pub fn c17_leaf(env: &mut Env, leaf: &Leaf, variant: usize) {
                 property: "C17".into(),
                 signature: sig,
                 what,
-                case: json!({"engine":"c17","variant": if variant == 0 {"foreign-entries"} else {"numbering-gaps"},"seed_name":leaf.seed.name,"seed_ops":leaf.seed.ops,"ops":leaf.ops}),
+                case: json!({"engine":"c17","variant": match variant { 0 => "foreign-entries", 1 => "numbering-gaps", _ => "symlink-on-next-wal-name" },"seed_name":leaf.seed.name,"seed_ops":leaf.seed.ops,"ops":leaf.ops}),
             });
         }
     });
@@ -1233,14 +1235,39 @@ fn is_wal_name(name: &str) -> bool {
 }
 
 fn c17_inner(stats: &mut Stats, dir: &std::path::Path, target: &std::path::Path, leaf: &Leaf, variant: usize) -> Result<(), Fail> {
-    let foreign = if variant == 0 { foreign_entries(target) } else { vec![] };
+    let mut foreign = if variant == 0 { foreign_entries(target) } else { vec![] };
     install_foreign(dir, &foreign);
-    let foreign_names: Vec<&String> = foreign.iter().map(|f| &f.0).collect();
+    if variant == 2 && leaf.seed.ops.is_empty() {
+        // first open of an empty directory: the name of the very first WAL file
+        let planted = vec![(wal_name(0), Foreign::Symlink(target.to_path_buf()))];
+        install_foreign(dir, &planted);
+        foreign.extend(planted);
+        reset_hooks(0, true);
+        let res = open_log(dir, PolicyCfg::Default);
+        let events = vh::trace_take();
+        for e in &events {
+            if let Event::Open { name, create_new: true, is_dir: false, .. } | Event::Write { name, .. } | Event::SetLen { name, .. } = e {
+                if *name == wal_name(0) {
+                    return fail("foreign-entry-touched", format!("first open: the symlink {:?} was created/written/resized through", name));
+                }
+            }
+        }
+        drop(res);
+        check_foreign(dir, &foreign).map_err(|e| ("foreign-entry-changed".to_string(), format!("first open with a symlink on the first WAL name: {}", e)))?;
+        stats.count("symlink_on_next_wal_name_cases", 1);
+        return Ok(());
+    }
+    let mut planted_name: Option<String> = None;
     let mut run = Run::start(dir, PolicyCfg::Default, 0, true, default_names()).map_err(|e| ("open-failed".to_string(), e))?;
     let mut all_events: Vec<Event> = std::mem::take(&mut run.open_events);
     let seed_len = leaf.seed.ops.len();
     let total = seed_len + leaf.ops.len();
-    let check_events = |events: &[Event], i: usize| -> Result<(), Fail> {
+    let foreign_names0: Vec<String> = foreign.iter().map(|f| f.0.clone()).collect();
+    let check_events = |events: &[Event], i: usize, planted: &Option<String>| -> Result<(), Fail> {
+        let mut foreign_names: Vec<&String> = foreign_names0.iter().collect();
+        if let Some(p) = planted {
+            foreign_names.push(p);
+        }
         for e in events {
             let (name, what) = match e {
                 Event::Open { name, create_new, is_dir, .. } => (name, if *is_dir { "" } else if *create_new { "created" } else { "opened" }),
@@ -1262,7 +1289,7 @@ fn c17_inner(stats: &mut Stats, dir: &std::path::Path, target: &std::path::Path,
         }
         Ok(())
     };
-    check_events(&all_events, 0)?;
+    check_events(&all_events, 0, &planted_name)?;
     all_events.clear();
     for i in 0..=total {
         let is_final = i == total;
@@ -1288,6 +1315,14 @@ fn c17_inner(stats: &mut Stats, dir: &std::path::Path, target: &std::path::Path,
                 return fail("state-lost-with-numbering-gaps", format!("after renumbering the WAL files with gaps the log yields {} instead of {}", obs_summary(&obs), obs_summary(&model_obs(&run.model))));
             }
         }
+        if variant == 2 && i == seed_len {
+            let next = list_dir(dir).iter().filter_map(|f| wal_number(&f.0)).max().unwrap_or(0) + 1;
+            let planted = vec![(wal_name(next), Foreign::Symlink(target.to_path_buf()))];
+            install_foreign(dir, &planted);
+            planted_name = Some(wal_name(next));
+            foreign.extend(planted);
+            stats.count("symlink_on_next_wal_name_cases", 1);
+        }
         let op_final = Op::Reopen;
         let op: &Op = if is_final { &op_final } else if i < seed_len { &leaf.seed.ops[i] } else { leaf.ops[i - seed_len] };
         let rec = run.step(op);
@@ -1295,7 +1330,23 @@ fn c17_inner(stats: &mut Stats, dir: &std::path::Path, target: &std::path::Path,
         if i >= seed_len {
             stats.outcome(rec.got.label());
         }
-        check_events(&rec.events, i)?;
+        if let Some(p) = &planted_name {
+            // only creation / writing / resizing through the planted symlink counts as touching it
+            for e in &rec.events {
+                if let Event::Open { name, create_new: true, is_dir: false, .. } | Event::Write { name, .. } | Event::SetLen { name, .. } = e {
+                    if name == p {
+                        return fail("foreign-entry-touched", format!("step {} {}: the symlink {:?} planted on the next WAL file name was created/written/resized through", i, op.short(), name));
+                    }
+                }
+            }
+            if matches!(rec.got, Outcome::Err(ErrKind::Io(_))) {
+                // refusing to continue is fine; what matters is that the foreign entry is intact
+                check_foreign(dir, &foreign).map_err(|e| ("foreign-entry-changed".to_string(), format!("step {} {}: {}", i, op.short(), e)))?;
+                return Ok(());
+            }
+        } else {
+            check_events(&rec.events, i, &planted_name)?;
+        }
         if rec.events.iter().any(|e| matches!(e, Event::Unlink { .. })) {
             stats.count("calls_deleting_wal_files", 1);
         }
